@@ -65,6 +65,7 @@ def handle (line : String) : String :=
   | "X02" :: rest => handleX02 rest
   | "X03" :: rest => handleX03 rest
   | "O06" :: rest => handleO06 rest
+  | "Q06" :: rest => handleQ06 rest
   | "D09" :: rest => handleDbg "D09" rest
   | "T09" :: rest => handleT09 rest
   | "D10" :: rest => handleDbg "D10" rest
